@@ -71,7 +71,7 @@ def build_model(spec, order=None):
 def _f55(spec, sig, msg):
     """QR cut-offs (1e-10 on the elements of Q and R) amplified by the dynamic range of the coefficients:
     (a) repeated QR swap of an operator with factors over >= 4 decades, refused by the self-check, wrong by <= 1e-3 relative;
-    (b) QR construction of an operator with factors over >= 6 decades, off by <= 1e-5 relative (observed 1.1e-7 vs the 1e-7 asserted)"""
+    (b) QR construction (and QR swap of a QR-built operator) with factors over >= 6 decades, off by <= 1e-5 relative (observed 1.1e-7 / 4e-7 vs the 1e-7 / 2e-7 asserted)"""
     import re
     mags = [abs(complex(*t["f"])) for t in spec["terms"]] + [abs(spec.get("offset", 0.0))]
     mags = [x for x in mags if x > 0]
@@ -82,7 +82,7 @@ def _f55(spec, sig, msg):
     rel = float(m.group(1)) / float(m.group(2)) * 1e-7  # tolerances are (1 or 2) * 1e-7 * scale for QR
     if sig.startswith("swap_refused_and_wrong."):
         return spec.get("swap_algo") == "qr" and len(spec.get("swaps", [])) >= 2 and rng >= 1e4 and rel <= 1e-3
-    if sig in ("dense.qr", "fresh_order.qr"):
+    if sig in ("dense.qr", "fresh_order.qr", "swap.qr"):
         return rng >= 1e6 and rel <= 1e-5
     return False
 
